@@ -45,8 +45,9 @@ fn scenario(lk: LoopKind, comb: Combine, side_left: bool, input: Vec<i64>, side:
 fn scenario_on(lk: LoopKind, comb: Combine, side_left: bool, input: Vec<i64>, side: Vec<i64>, rounds: usize, layout: Layout, batch: BatchMode, bound: usize) -> Scenario {
     let p = layout.total_cores();
     let lname = if layout.hosts() == 1 { format!("p{p}") } else { layout.name() };
-    let name = format!("C11/{:?}-{:?}-sideleft{side_left}/in{:?}/side{:?}/rounds{rounds}/{lname}/{:?}", lk, comb, input, side, batch).replace(' ', "");
-    let descr = format!("{:?} of {rounds} rounds whose body combines ({:?}) the loop stream {:?} with an outside stream {:?}; layout {}, batch mode {:?}", lk, comb, input, side, layout.name(), batch);
+    let side_txt = if side.len() > 12 { format!("0..{}", side.len()) } else { format!("{:?}", side) };
+    let name = format!("C11/{:?}-{:?}-sideleft{side_left}/in{:?}/side{side_txt}/rounds{rounds}/{lname}/{:?}", lk, comb, input, batch).replace(' ', "");
+    let descr = format!("{:?} of {rounds} rounds whose body combines ({:?}) the loop stream {:?} with an outside stream {side_txt}; layout {}, batch mode {:?}", lk, comb, input, layout.name(), batch);
     let (input2, side2) = (input.clone(), side.clone());
     let body: crate::rt::Body = Arc::new(move || {
       let (input2, side2) = (input2.clone(), side2.clone());
@@ -210,7 +211,11 @@ fn scenario_on(lk: LoopKind, comb: Combine, side_left: bool, input: Vec<i64>, si
                 let sig = if got.len() < exp.len() { "side-input-incomplete" } else if got.len() > exp.len() { "side-input-duplicated" } else { "side-input-differs" };
                 return Err(Fail::new(
                     format!("c11-{tagk}-{sig}-round{}", if k == 0 { "1" } else { "n" }),
-                    format!("{d2}: in round {} the body produced {:?}; with the complete side input it produces {:?}", k + 1, got, exp),
+                    if exp.len() > 40 {
+                        format!("{d2}: in round {} the body produced {} elements; with the complete side input it produces {}", k + 1, got.len(), exp.len())
+                    } else {
+                        format!("{d2}: in round {} the body produced {:?}; with the complete side input it produces {:?}", k + 1, got, exp)
+                    },
                 ));
             }
         }
@@ -269,6 +274,13 @@ fn build(tier: Tier) -> Vec<Scenario> {
                     }
                 }
             }
+        }
+    }
+    // a side input of several full batches, more than the channels hold (the cache of the
+    // two-input Start spans many batches)
+    for lk in [LoopKind::Replay, LoopKind::Iterate] {
+        for (batch, side_left) in [(BatchMode::fixed(1024), false), (BatchMode::fixed(100), true)] {
+            out.push(scenario(lk, Combine::Merge, side_left, vec![2, 5], (0..2500).collect(), 2, 2, batch, 0));
         }
     }
     // adaptive batching: the timed receive of the two-input Start may expire between two rounds
